@@ -30,6 +30,8 @@ type onceState struct {
 	launchAfterKill   bool
 	tmpDirs           []string
 	rfErr             bool
+	protos            []string // results of Protocol(), in call order (sequential scenario only)
+	reattach          []string // results of ReattachConfig(), rendered
 }
 
 func newOnce(x *vs.Exec, behaviour string) *onceState {
@@ -43,6 +45,8 @@ func newOnce(x *vs.Exec, behaviour string) *onceState {
 		script = servePlugin(serveOpts{proto: "grpc", plugins: plugin.PluginSet{"p": &tagGRPCPlugin{tag: "t"}}})
 	case "badline":
 		script = func(r *scriptRunner) { fmt.Fprintf(r.stdout, "1|99|tcp|127.0.0.1:1\n"); r.waitKilled() }
+	case "badproto": // fails late: the line is well-formed but names a protocol the client does not allow
+		script = func(r *scriptRunner) { fmt.Fprintf(r.stdout, "1|1|tcp|127.0.0.1:1|bogus\n"); r.waitKilled() }
 	case "silent":
 		script = func(r *scriptRunner) { r.waitKilled() }
 	case "rferr":
@@ -111,9 +115,16 @@ func (st *onceState) op(name string) {
 		if pr == plugin.ProtocolInvalid && st.r.startCount() > 0 {
 			st.failedAfterLaunch = true
 		}
+		st.protos = append(st.protos, string(pr))
 		x.Obs("Protocol=%s", pr)
 	case "ReattachConfig":
-		x.Obs("Reattach nil=%v", st.cl.ReattachConfig() == nil)
+		rc := st.cl.ReattachConfig()
+		if rc != nil {
+			st.reattach = append(st.reattach, fmt.Sprintf("%s|%v|%d|test=%v", rc.Protocol, rc.Addr, rc.Pid, rc.Test))
+		} else {
+			st.reattach = append(st.reattach, "nil")
+		}
+		x.Obs("Reattach nil=%v", rc == nil)
 	case "ID":
 		st.cl.ID()
 	case "Exited":
@@ -145,6 +156,30 @@ func (st *onceState) check(desc string) {
 			x.Fail("S", "successful Start calls returned different addresses [%s]", desc)
 		}
 	}
+	// accessors are idempotent: the answer to Protocol() never changes once given, except from "not started
+	// successfully" ("") ... to nothing else either: a client whose start failed stays failed
+	for i := 1; i < len(st.protos); i++ {
+		if st.protos[i] != st.protos[i-1] {
+			x.Fail("S", "Protocol() answered %q, then %q on the same client [%s]", st.protos[i-1], st.protos[i], desc)
+			break
+		}
+	}
+	// ReattachConfig(): nil until the start has succeeded, then always the same
+	seen := ""
+	for _, r := range st.reattach {
+		if r == "nil" {
+			if seen != "" {
+				x.Fail("S", "ReattachConfig() returned nil after it had returned %s [%s]", seen, desc)
+				break
+			}
+			continue
+		}
+		if seen != "" && r != seen {
+			x.Fail("S", "ReattachConfig() returned %s, then %s [%s]", seen, r, desc)
+			break
+		}
+		seen = r
+	}
 	for _, c := range st.clients[min(1, len(st.clients)):] {
 		if c != st.clients[0] {
 			x.Fail("S", "successful Client calls returned different protocol clients [%s]", desc)
@@ -163,19 +198,19 @@ func init() {
 		Settle:  3 * time.Second,
 		Body: func(x *vs.Exec, p explore.Params) {
 			st := newOnce(x, p["beh"])
-			x.Data["st"] = st
+			x.Put("st", st)
 			for _, o := range strings.Split(p["seq"], ",") {
 				st.op(o)
 			}
 			if !st.killed {
 				st.cl.Kill()
 			}
-			x.Data["completed"] = true
+			x.Put("completed", true)
 		},
 		Check: func(x *vs.Exec, p explore.Params) {
 			st := x.Data["st"].(*onceState)
 			desc := fmt.Sprintf("plugin=%s history=%s", p["beh"], p["seq"])
-			x.Data["nontrivial"] = strings.Count(p["seq"], ",") >= 1
+			x.Put("nontrivial", strings.Count(p["seq"], ",") >= 1)
 			if x.Data["completed"] != true {
 				x.Fail("L", "history never finished (blocked: %v) [%s]", x.EndBlocked, desc)
 			}
@@ -193,7 +228,7 @@ func init() {
 			}
 			var out []explore.Params
 			var rec func(prefix []string)
-			behs := []string{"netrpc", "grpc", "badline", "silent", "rferr"}
+			behs := []string{"netrpc", "grpc", "badline", "badproto", "silent", "rferr"}
 			rec = func(prefix []string) {
 				if len(prefix) > 0 {
 					for _, b := range behs {
@@ -220,9 +255,9 @@ func init() {
 		Settle:  3 * time.Second,
 		Body: func(x *vs.Exec, p explore.Params) {
 			st := newOnce(x, p["beh"])
-			x.Data["st"] = st
+			x.Put("st", st)
 			d := newDone(x)
-			x.Data["d"] = d
+			x.Put("d", d)
 			for _, g := range []string{"g1", "g2", "g3"} {
 				ops, ok := p[g]
 				if !ok {
@@ -249,7 +284,7 @@ func init() {
 		Instances: func(tier string) []explore.Params {
 			var out []explore.Params
 			ops := []string{"Start", "Client", "Kill", "Protocol", "ReattachConfig"}
-			behs := []string{"netrpc", "grpc", "badline"}
+			behs := []string{"netrpc", "grpc", "badline", "badproto"}
 			for _, b := range behs {
 				for i, a := range ops {
 					for _, c := range ops[i:] {
